@@ -341,7 +341,35 @@ pub enum UciLine {
     Blank(u8),
     Long(u8, u32),
     PositionOdd(u8),
+    /// words of the UCI protocol (commands, their keywords, values) in any order and number: a line
+    /// shaped like a command whose arguments are missing, doubled or shuffled
+    Soup(Vec<u8>),
+    /// a protocol command word followed by ITS OWN keywords and values, shuffled, doubled or missing
+    CommandSoup(u8, Vec<u8>),
 }
+
+/// The protocol's vocabulary (UCI specification), also words this engine does not implement: a
+/// handler added later meets the same lines.
+const VOCABULARY: [&str; 56] = [
+    "uci", "debug", "on", "off", "isready", "setoption", "name", "value", "register", "later", "code", "ucinewgame",
+    "position", "startpos", "fen", "moves", "go", "searchmoves", "ponder", "wtime", "btime", "winc", "binc", "movestogo",
+    "depth", "nodes", "mate", "movetime", "infinite", "stop", "ponderhit", "Hash", "OwnBook", "Threads", "true", "false",
+    "0", "1", "-1", "8", "100", "4294967296", "e2e4", "e7e5", "e7e8q", "a1", "8/8/8/8/8/2K5/7R/k7", "w", "b", "-", "KQkq",
+    "rnbqkbnr/pppppppp/8/8/8/8/PPPPPPPP/RNBQKBNR", ".state", "=", "\t", "",
+];
+
+const COMMAND_WORDS: [(&str, &[&str]); 10] = [
+    ("setoption", &["name", "value", "name", "value", "Hash", "OwnBook", "Threads", "Clear Hash", "true", "false", "8", "-1", "", "x"]),
+    ("go", &["searchmoves", "ponder", "wtime", "btime", "winc", "binc", "movestogo", "depth", "nodes", "mate", "movetime", "infinite", "0", "1", "-1", "100", "4294967296", "e2e4", "x"]),
+    ("position", &["startpos", "fen", "moves", "moves", "e2e4", "e7e5", "e7e8q", "a1", "8/8/8/8/8/2K5/7R/k7", "w", "b", "-", "KQkq", "0", "1", "rnbqkbnr/pppppppp/8/8/8/8/PPPPPPPP/RNBQKBNR"]),
+    ("debug", &["on", "off", "true", "on"]),
+    ("register", &["later", "name", "code", "x", "1"]),
+    ("uci", &["uci", "name", "1"]),
+    ("ucinewgame", &["ucinewgame", "startpos", "1"]),
+    ("stop", &["stop", "go", "1"]),
+    ("ponderhit", &["ponderhit", "e2e4", "1"]),
+    (".state", &[".state", "fen", "1"]),
+];
 
 #[derive(Debug, Clone, Serialize, Deserialize)]
 pub struct UciCase {
@@ -403,6 +431,26 @@ pub fn uci_text(l: &UciLine) -> Vec<String> {
             "position kiwipete",
         ][*k as usize % 7]
             .to_string()],
+        UciLine::CommandSoup(c, words) => {
+            // the commands with keyword/value pairs three and two times as often as the bare ones
+            let pick = [0usize, 0, 0, 0, 1, 1, 2, 2, 3, 4, 5, 6, 7, 8, 9][*c as usize % 15];
+            let (cmd, own) = COMMAND_WORDS[pick];
+            let mut v = vec![cmd];
+            v.extend(words.iter().map(|w| own[*w as usize % own.len()]));
+            vec![v.join(" "), "stop".to_string(), "position startpos".to_string()]
+        }
+        UciLine::Soup(words) => {
+            let mut v: Vec<&str> = words.iter().map(|w| VOCABULARY[*w as usize % VOCABULARY.len()]).collect();
+            // not as the command word: isready (its answer would be taken for the answer to the probe
+            // that follows every line); quit is not in the vocabulary at all (a well-formed request to leave)
+            while v.first().map(|w| w.trim().is_empty() || *w == "isready").unwrap_or(false) {
+                v.remove(0);
+            }
+            let line = v.join(" ");
+            // whatever it did to the session (a search may be running on some position now): stop it and
+            // go back to a known position, like after the mutated FENs
+            vec![line, "stop".to_string(), "position startpos".to_string()]
+        }
     }
 }
 
@@ -429,6 +477,8 @@ impl Prop for UciLines {
             1 => (0u8..5).prop_map(UciLine::Blank),
             1 => (0u8..5, any::<u32>()).prop_map(|(a, b)| UciLine::Long(a, b)),
             2 => (0u8..7).prop_map(UciLine::PositionOdd),
+            3 => prop::collection::vec(0u8..(VOCABULARY.len() as u8), 1..9).prop_map(UciLine::Soup),
+            8 => (0u8..15, prop::collection::vec(any::<u8>(), 0..7)).prop_map(|(c, w)| UciLine::CommandSoup(c, w)),
         ];
         prop::collection::vec(line, 1..8).prop_map(|lines| UciCase { lines }).boxed()
     }
@@ -464,6 +514,8 @@ impl Prop for UciLines {
                 UciLine::Blank(_) => "blank_line",
                 UciLine::Long(..) => "long_line",
                 UciLine::PositionOdd(_) => "position_odd_shape",
+                UciLine::Soup(_) => "protocol_word_soup",
+                UciLine::CommandSoup(..) => "command_with_shuffled_keywords",
             });
         }
         u.send("quit");
@@ -641,7 +693,7 @@ pub fn plan(ctx: &Ctx) -> Plan {
             (Box::new(SanStrings), t.pick(1_000_000, 30_000_000)),
             (Box::new(PositionCommand), t.pick(200_000, 5_000_000)),
             (Box::new(PlainBuild), t.pick(300_000, 5_000_000)),
-            (Box::new(UciLines), t.pick(300, 10_000)),
+            (Box::new(UciLines), t.pick(400, 10_000)),
             (Box::new(crate::fuzzdrv::target("parsers_raw")), t.pick(0, 60_000)),
             (Box::new(crate::fuzzdrv::target("parsers_grammar")), t.pick(0, 60_000)),
         ],
